@@ -3,6 +3,11 @@ import QF.Props.Tie
 namespace QF.Props.C14
 
 /-- T1: the functions this property's mirror model follows have today the source text the model was written against. -/
-theorem tie : Tie.sameAll ["qframe.QFrame.ToJSON", "strings.AppendQuotedString", "io.jsonRecordsToData", "io.UnmarshalJSON", "fcolumn.Column.AppendByteStringAt", "icolumn.Column.AppendByteStringAt"] = true := by decide
+-- Tie audit (bin/selftest-ties): the following functions are not compared as text any more; every behaviour-changing edit of
+-- them makes a `gen_*_canon` theorem of this property's modules fail, renaming their locals or reformatting them changes nothing:
+-- `QFrame.ToJSON`: `Gen.toJsonAst` (wast.go) + `Gen.guardAst2`, `C14WriterGen.gen_tojson_canon` + `gen_tojson_semantics`, `C10Guards.gen_guards2_canon`.
+-- `Column.AppendByteStringAt` of fcolumn / icolumn: `Gen.appendAst` (oast.go), `C09Observe.gen_append_canon` + `gen_append_semantics`.
+-- AppendQuotedString is regenerated in `Gen.stringsFns` (C14QuoteGen.gen_quote_semantics), the JSON reading glue in `Gen.recordsToDataAst` / `fillAsts` / `unmarshalJsonAst` (C14ReadJsonGen); nothing of C14 is compared as text any more.
+theorem tie : Tie.sameAll [] = true := by decide
 
 end QF.Props.C14
